@@ -107,7 +107,10 @@ class TaskLoader:
 
         return shim
 
-    def _run_include(self, candidate_path: str):
+    def _run_include(self, path: str):
+        # N.B. This is `include()` in a COND file; the parameter carries its
+        # documented name so that `include(path="...")` works.
+        candidate_path = path
         assert self._current_cond_file_path is not None
         assert self._curr_exec_scope is not None
 
